@@ -468,7 +468,7 @@ contract(
     # the body is verified for duplicate-free id lists (a dict comprehension keyed by the ids collapses duplicates; callers are
     # not asked to establish this: recorded restriction)
     entry_assume=lambda c: And(_distinct_ids(c), O_injective(), _local(c), _sinv(c), Or(_wf_requested(c), _verify_on(c))),
-    props=["C07", "C15", "C01"],
+    props=["C07", "C15", "C01", "C11"],
     doc="order inside add: pre-copy check, copy, post-copy check, protect, then state rows; a mismatching object is never "
         "write-protected (crash condition after every mutating call) and, under verify, never retained",
 )
